@@ -9,6 +9,7 @@ import (
 
 	"github.com/lindb/lindb/kv"
 	"github.com/lindb/lindb/kv/table"
+	"github.com/lindb/lindb/kv/version"
 	"github.com/lindb/lindb/pkg/bufioutil"
 	"github.com/lindb/lindb/tsdb/tblstore/metricsdata"
 
@@ -501,8 +502,17 @@ type famCase struct {
 	// faultAt >= 0: the output file with this index cannot be created during the NEXT compaction
 	// (injected through the table builder's writer seam, table.VerifC01SetNewWriter)
 	faultAt int
+	// openFault: during the NEXT compaction the open of one picked input fails (kind "enoent": the table file is
+	// moved away for the duration of the job; kind "io": table.VerifC02FailOpenOnce); the readers of all picked
+	// inputs are evicted from the reader cache first, so the job really opens them
+	openFault *openFault
 	// silent: no protocol lines (regions without model counterpart: only the impl-side oracle speaks)
 	silent bool
+}
+
+type openFault struct {
+	idx  int // position among the picked inputs (taken modulo their number)
+	kind string
 }
 
 // guard runs one operation: mirrored as a protocol line, or silently with the panic turned into an
@@ -727,13 +737,63 @@ func (fc *famCase) compact(r *rand.Rand, threshold int, maxMode string, optMax u
 			return bufioutil.NewBufioStreamWriter(fileName)
 		})
 	}
+	// fault on the open of one picked input
+	of := fc.openFault
+	fc.openFault = nil
+	openWord, openArmed := "", false
+	var unhide func()
+	if of != nil {
+		picked := pickedInputs(before)
+		if len(picked) > 0 {
+			of.idx %= len(picked)
+			fc.env.evictReaders(picked)
+			switch of.kind {
+			case "enoent":
+				if u, err := fc.env.hideFile(picked[of.idx].Number); err == nil {
+					unhide, openArmed = u, true
+				} else {
+					c.Fail("harness-hide-file", err.Error())
+				}
+			default:
+				table.VerifC02FailOpenOnce(version.Table(tableNumber(picked[of.idx].Number)))
+				openArmed = true
+			}
+			openWord = fmt.Sprintf("open:%d:%s", of.idx, of.kind)
+		}
+	}
+	// a merge job (not skipped, not a trivial move) opens every picked input
+	mergeJob := len(before[0]) >= threshold && !(len(before[0]) == 1 && len(pickedInputs(before)) == 1) && len(before[0]) > 0
 	cerr, p := fc.env.compact()
 	if restore != nil {
 		restore()
 	}
+	if unhide != nil {
+		unhide()
+	}
+	if openArmed {
+		table.VerifC02ClearOpenFaults()
+	}
 	after, _ := fc.env.levels()
+	isOpenErr := cerr != nil && (strings.Contains(cerr.Error(), "injected table open failure") || strings.Contains(cerr.Error(), "no such file"))
 	out := ""
 	switch {
+	case openArmed && mergeJob && !faultHit && p == nil && isOpenErr:
+		// an input could not be opened: the job must fail and install nothing
+		out = "fail"
+		failed = true
+		c.Branch("fam/compact-open-fault-" + of.kind)
+		if of.idx >= len(before[0]) {
+			c.Branch("fam/compact-open-fault-level1-input")
+		}
+		if showFiles(before[0]) != showFiles(after[0]) || showFiles(before[1]) != showFiles(after[1]) {
+			c.Fail("compact-fail-changed-version", fmt.Sprintf("compaction returned %v but the version changed: L0:%s L1:%s -> L0:%s L1:%s",
+				cerr, showFiles(before[0]), showFiles(before[1]), showFiles(after[0]), showFiles(after[1])))
+		}
+	case openArmed && mergeJob && !faultHit && p == nil && cerr == nil:
+		// the job reported success although one of its inputs could not be opened
+		out = "merged"
+		c.Fail("compact-open-fault-not-reported", fmt.Sprintf("the open of picked input %d (%s, file %d) failed, the compaction reported success; L0:%s L1:%s -> L0:%s L1:%s",
+			of.idx, of.kind, pickedInputs(before)[of.idx].Number, showFiles(before[0]), showFiles(before[1]), showFiles(after[0]), showFiles(after[1])))
 	case faultHit && p == nil && cerr != nil:
 		// the injected fault made the merge fail: nothing may have been installed
 		out = "fail"
@@ -786,6 +846,11 @@ func (fc *famCase) compact(r *rand.Rand, threshold int, maxMode string, optMax u
 	opLine := fmt.Sprintf("compact %d %d %s", threshold, max, sizeWord)
 	if faultAt >= 0 {
 		opLine += fmt.Sprintf(" %d", faultAt)
+	} else if openWord != "" {
+		opLine += " -"
+	}
+	if openWord != "" {
+		opLine += " " + openWord
 	}
 	c.Op(opLine, out+" "+fc.levelsText())
 	if maxMode == "mid" {
@@ -1036,6 +1101,8 @@ func (a area) runFamilyCase(c *core.Ctx, r *rand.Rand) {
 			}
 			if r.Intn(6) == 0 {
 				fc.faultAt = r.Intn(3)
+			} else if r.Intn(5) == 0 {
+				fc.openFault = &openFault{idx: r.Intn(64), kind: []string{"enoent", "io"}[r.Intn(2)]}
 			}
 			if fc.compact(r, threshold, mm, optMax) {
 				splitFailed = true
@@ -1491,6 +1558,8 @@ func (a area) Run(c *core.Ctx) error {
 			a.witnessSlot65535(c)
 		case i == 12:
 			a.scenarioMixedShapes(c)
+		case i == 14:
+			a.scenarioOpenFault(c)
 		case i >= 13 && i%10 == 3:
 			a.runDamagedCase(c, r)
 		case i%2 == 1:
